@@ -298,10 +298,38 @@ def render_enum(decl, cfg, name='E', derives='Clone, Copy, EnumTools', extra_att
     lines.append('}')
     return lines
 
-def render_module(mod, decl, cfg, **kw):
+HOSTILE = [
+    # type + value namespace
+    'pub struct Option;', 'pub struct Some;', 'pub struct None;', 'pub struct Result;', 'pub struct Ok;', 'pub struct Err;',
+    'pub struct RangeInclusive;', 'pub struct MaybeUninit;', 'pub struct Formatter;', 'pub struct Map;', 'pub struct Copied;', 'pub struct Iter;', 'pub struct IntoIter;',
+    # traits
+    'pub trait Iterator {}', 'pub trait IntoIterator {}', 'pub trait DoubleEndedIterator {}', 'pub trait ExactSizeIterator {}', 'pub trait FusedIterator {}',
+    'pub trait From {}', 'pub trait Into {}', 'pub trait TryFrom {}', 'pub trait FromStr {}', 'pub trait Copy {}', 'pub trait Clone {}', 'pub trait Debug {}',
+    'pub trait Display {}', 'pub trait Sized {}', 'pub trait FnMut {}', 'pub trait PartialEq {}',
+    # functions, modules
+    'pub fn transmute() {}', 'pub fn drop() {}', 'pub mod core {}', 'pub mod std {}', 'pub mod alloc {}', 'pub mod mem {}', 'pub mod option {}', 'pub mod iter {}',
+    # macros (textual scope: defined before the enum)
+    'macro_rules! panic { ($($t:tt)*) => { compile_error!("hostile panic! was invoked by derived code") } }',
+    'macro_rules! unreachable { ($($t:tt)*) => { compile_error!("hostile unreachable! was invoked by derived code") } }',
+    'macro_rules! matches { ($($t:tt)*) => { compile_error!("hostile matches! was invoked by derived code") } }',
+    'macro_rules! write { ($($t:tt)*) => { compile_error!("hostile write! was invoked by derived code") } }',
+    'macro_rules! assert { ($($t:tt)*) => { compile_error!("hostile assert! was invoked by derived code") } }',
+    'macro_rules! debug_assert { ($($t:tt)*) => { compile_error!("hostile debug_assert! was invoked by derived code") } }',
+    'macro_rules! assert_eq { ($($t:tt)*) => { compile_error!("hostile assert_eq! was invoked by derived code") } }',
+    'macro_rules! unimplemented { ($($t:tt)*) => { compile_error!("hostile unimplemented! was invoked by derived code") } }',
+    'macro_rules! todo { ($($t:tt)*) => { compile_error!("hostile todo! was invoked by derived code") } }',
+    'macro_rules! format_args { ($($t:tt)*) => { compile_error!("hostile format_args! was invoked by derived code") } }',
+    'macro_rules! concat { ($($t:tt)*) => { compile_error!("hostile concat! was invoked by derived code") } }',
+    'macro_rules! stringify { ($($t:tt)*) => { compile_error!("hostile stringify! was invoked by derived code") } }',
+]
+
+def render_module(mod, decl, cfg, hostile=False, **kw):
     """one instance = one module.  A declaration with vis 'pub(in crate::MOD)' is nested one level deeper so that
-    the path names an ancestor module."""
-    hdr = ['    #![no_implicit_prelude]', '    #![allow(dead_code, non_camel_case_types, unused_imports)]', '    use ::enum_tools::EnumTools;']
+    the path names an ancestor module.  hostile=True adds user items, modules and macros named like prelude / core
+    items in front of the enum (C16)."""
+    hdr = ['    #![no_implicit_prelude]', '    #![allow(dead_code, non_camel_case_types, unused_imports, unused_macros)]', '    use ::enum_tools::EnumTools;']
+    if hostile:
+        hdr += ['    ' + h for h in HOSTILE]
     if 'MOD' in (decl['vis'] or ''):
         d2 = dict(decl); d2['vis'] = decl['vis'].replace('MOD', mod)
         body = ['pub mod %s {' % mod, '    pub mod inner {'] + ['    ' + h for h in hdr]
